@@ -188,6 +188,28 @@ theorem seeded_consecutive_empty (before after : List Str) (blank : Str) (hb : i
   simp only [consecutiveEmpty, he, hb, Bool.true_and, if_true, List.mem_singleton, Report.mk.injEq, true_and]
   omega
 
+/-- the blank-line bookkeeping of `parse_file` does not depend on its `multiline` flag: whatever the flag
+    is at any point, the loop with the flag reports what the flag-free state machine reports -/
+theorem parseFileBlank_ignores_multiline : ∀ (ls : List Str) (m e : Bool) (n : Nat),
+    runFrom parseFileBlank ⟨m, e⟩ n ls = runFrom consecutiveEmpty e n ls
+  | [], _, _, _ => rfl
+  | l :: ls, m, e, n => by
+    simp only [runFrom, parseFileBlank, consecutiveEmpty]
+    exact congrArg _ (parseFileBlank_ignores_multiline ls _ _ (n + 1))
+
+/-- blank lines, every position: a blank line inserted directly after a blank line is reported at the
+    inserted line - also when the first blank line is a line of a multi-line preprocessor directive or
+    the line that ends one (the line below a backslash), i.e. whatever `multiline` is there -/
+theorem seeded_consecutive_empty_everywhere (before after : List Str) (blank : Str) (hb : isBlank blank = true) :
+    ⟨.consecutiveEmpty, before.length + 2⟩ ∈ run parseFileBlank (before ++ blank :: [] :: after) := by
+  unfold run
+  rw [show parseFileBlank.reset = ⟨false, false⟩ from rfl, parseFileBlank_ignores_multiline]
+  exact seeded_consecutive_empty before after blank hb
+
+/-- the flag itself: below a backslash-terminated directive line the loop IS in its `multiline` branch -/
+example : nextMultiline false "#define A(X) \\".toList = true ∧ nextMultiline true [] = false ∧
+    nextMultiline false "#include <vector> \\".toList = false := by decide +kernel
+
 /-- blank lines: a whitespace-only (non-empty) line put before the last line is reported -/
 theorem seeded_blank_near_end (before : List Str) (ws last : Str) (hne : ws ≠ []) (hws : isBlank ws = true) :
     ⟨.emptyNearEnd, (before ++ [ws, last]).length + 1⟩ ∈ emptyNearEnd (before ++ [ws, last]) := by
